@@ -67,7 +67,14 @@ def gen(rng, depth, allow_cmp=True):
         return ("name", rng.choice(["a", "b"]))
     if r < 0.55:
         op = rng.choice(["+", "-", "*", "/", "**", "+", "*", "-"])
-        return ("bin", op, gen(rng, depth - 1, allow_cmp), gen(rng, depth - 1, allow_cmp))
+        left, right = gen(rng, depth - 1, allow_cmp), gen(rng, depth - 1, allow_cmp)
+        if op == "**" and literal_only(right) and (has_pow(right) or big_literal(right)):
+            # 10 ** 10 ** 10 / 2 ** 9007199254740993 are exact integers Python would try to compute: keep
+            # exponent towers of pure literals out (an exponent that involves a column is a float array)
+            right = ("name", rng.choice(["a", "b", "c"]))
+        if op == "**" and literal_only(left) and literal_only(right) and (has_pow(left) or big_literal(left)):
+            left = ("name", rng.choice(["a", "b", "c"]))
+        return ("bin", op, left, right)
     if r < 0.68:
         return ("un", rng.choice("+-"), gen(rng, depth - 1, allow_cmp))
     if r < 0.76 and allow_cmp:
@@ -88,6 +95,39 @@ def gen(rng, depth, allow_cmp=True):
         else:
             kws.append((k, gen(rng, depth - 1, True)))
     return ("call", rng.choice(["r1", "r2"]), args, kws)
+
+
+def literal_only(n):
+    k = n[0]
+    if k in ("num", "py", "str"):
+        return True
+    if k == "name":
+        return False
+    if k in ("bin", "cmp"):
+        return literal_only(n[2]) and literal_only(n[3])
+    if k == "un":
+        return literal_only(n[2])
+    return False
+
+
+def has_pow(n):
+    if n[0] == "bin":
+        return n[1] == "**" or has_pow(n[2]) or has_pow(n[3])
+    if n[0] in ("un",):
+        return has_pow(n[2])
+    if n[0] == "cmp":
+        return has_pow(n[2]) or has_pow(n[3])
+    return False
+
+
+def big_literal(n):
+    if n[0] == "num":
+        return float(n[1]) > 64
+    if n[0] in ("bin", "cmp"):
+        return big_literal(n[2]) or big_literal(n[3])
+    if n[0] == "un":
+        return big_literal(n[2])
+    return False
 
 
 def prec(n):
